@@ -38,8 +38,8 @@ def handle (j : Json) : List (String × Json) :=
     if jhas ex k then [obsOf kind g dflt (jobj ex k)] else []
   -- unprefixed names: the module the node is used in for copies of a grouping, the module of the text otherwise
   let nodes : List (String × List (Option String)) :=
-    [("bl", get "b.must" "must" .expr "urn:m" ++ get "b.when" "when/false" .expr "urn:m"),
-     ("br", get "b.path" "path" .leafref "urn:m"),
+    [("bl", get "b.must" "must" .expr "urn:m" ++ get "b.when" "when/false" .expr "urn:m" ++ get "m.useswhen" "when/false" .expr "urn:m"),
+     ("br", get "b.path" "path" .leafref "urn:m" ++ get "m.useswhen" "when/false" .expr "urn:m"),
      ("ml", get "m.must" "must" .expr "urn:m"),
      ("mt", get "b.tpath" "path" .leafref "urn:b"),
      ("mr", get "m.path" "path" .leafref "urn:m"),
